@@ -75,6 +75,18 @@ func (fr *frame) call(cc *ssa.CallCommon, st *State, reach *string, instr ssa.In
 	if fv.F != nil && fv.F.Fn != nil {
 		return ex.callFn(fr, fv.F.Fn, args, fv.F.Bind, st, reach, instr, cc)
 	}
+	// a call through a captured variable that holds a closure assigned exactly once in the enclosing function
+	if ld, ok := cc.Value.(*ssa.UnOp); ok {
+		if v, ok := ld.X.(*ssa.FreeVar); ok {
+			if callee := ex.w.closureStoredIn(fr.fn, v.Name()); callee != nil {
+				if c := ex.w.contracts[callee]; c != nil && !c.Inline {
+					ex.used["call through captured variable "+v.Name()+" resolved to "+callee.Name()] = true
+					return ex.callContractClosure(c, callee, args, st, reach, fr)
+				}
+				panic(unsupported("call through captured variable " + v.Name() + ": callee " + callee.Name() + " needs a contract"))
+			}
+		}
+	}
 	// abstract function value
 	return ex.callAbstract(fr, fv, cc, args, st, reach)
 }
@@ -369,6 +381,18 @@ func ifaceMethodKey(t types.Type, m *types.Func) string {
 	return "iface." + m.Name()
 }
 
+// callContractClosure calls a sibling closure by contract: names of the enclosing function's variables in the
+// callee's clauses resolve in the caller's frame (captured variables, or parent-local symbols).
+func (ex *Exec) callContractClosure(c *Contract, callee *ssa.Function, args []Val, st *State, reach *string, fr *frame) Val {
+	var vars []*types.Var
+	for _, p := range callee.Params {
+		vars = append(vars, types.NewVar(0, nil, p.Name(), p.Type()))
+	}
+	ex.callerFrame = fr
+	defer func() { ex.callerFrame = nil }()
+	return ex.callContractVars(c, vars, callee.Signature, args, st, reach, fr)
+}
+
 // callContract performs a modular call: check requires, havoc the frame, assume ensures.
 func (ex *Exec) callContract(c *Contract, params []*ssa.Parameter, sig *types.Signature, args []Val, st *State, reach *string, fr *frame) Val {
 	var vars []*types.Var
@@ -464,6 +488,9 @@ func (ex *Exec) applyModifies(c *Contract, env map[string]Val, st *State) {
 	}
 }
 
+// ghostFramed: ghost variables whose modification must be declared (exclusive-writer facts rely on it).
+var ghostFramed = map[string]bool{"X|sendN": true, "X|sendLog": true, "X|sendClock": true}
+
 type modLoc struct {
 	all  bool
 	key  string
@@ -501,6 +528,10 @@ func (ex *Exec) resolveModifies(c *Contract, item string, env map[string]Val, st
 	}
 	n := 0
 	ce := &cenv{ex: ex, pkg: c.Pkg, vars: env, st: st, old: st, nq: &n}
+	if ex.callerFrame != nil {
+		ce.fr = ex.callerFrame
+		ce.blk = ex.callerFrame.curBlk
+	}
 	star := false
 	if strings.HasSuffix(item, ".*") {
 		star = true
@@ -658,6 +689,10 @@ func (fr *frame) checkFrame(st *State, reach string) {
 // only locations allowed by the modifies clause changed. only restricts the keys considered.
 func (fr *frame) frameGoals(st *State, only map[string]bool) []string {
 	ex := fr.ex
+	if ex.callerFrame == nil {
+		ex.callerFrame = fr
+		defer func() { ex.callerFrame = nil }()
+	}
 	env := map[string]Val{}
 	for i, p := range fr.fn.Params {
 		env[p.Name()] = fr.args[i]
@@ -685,7 +720,7 @@ func (fr *frame) frameGoals(st *State, only map[string]bool) []string {
 		if kind == "B" {
 			continue
 		}
-		if kind == "X" && !strings.HasPrefix(k, "X|g.") {
+		if kind == "X" && !ghostFramed[k] {
 			continue
 		}
 		fin, ok := st.H[k]
